@@ -102,6 +102,18 @@ func BuildFunc(dir string, n int, row func(i int) model.Row, w Writer) (string, 
 	return "", nil, fmt.Errorf("bad writer")
 }
 
+// Abort releases whatever an abandoned writer still holds (the big writer's pending temp transaction), so that the
+// databases can be closed without waiting forever.
+func Abort(w any) {
+	if c, ok := w.(interface{ Close() error }); ok {
+		c.Close()
+		return
+	}
+	if bw, ok := w.(*updog.BigIndexWriter); ok {
+		leakTx(bw)
+	}
+}
+
 // leakTx rolls back the writer's pending temp transaction through its private field when the writer has no Close
 // method (older API); failing that the deferred Close of the temp DB is skipped by the caller's process exit.
 func leakTx(bw *updog.BigIndexWriter) {
